@@ -34,4 +34,34 @@ def readSeed (own : SeedSeq) (seed : SeedArg) (ntraj : Nat) : Option (List SeedS
   | .int n => (some (({ entropy := n, key := [] } : SeedSeq).spawn ntraj).1, own)
   | .list l => if ntraj ≤ l.length then (some (l.take ntraj), own) else (none, own)
 
+/-! ## What the reducer keeps
+
+`MultiTrajResult.add((seed, trajectory))` appends the seed to `result.seeds` and the trajectory's data
+to the stored runs, in the order in which results arrive from the map — which, with worker processes,
+is any order.  A trajectory is `traj seed`. -/
+
+structure Collected (α : Type) where
+  seeds : List SeedSeq := []
+  runs : List α := []
+deriving Repr
+
+def Collected.add {α : Type} (c : Collected α) (s : SeedSeq) (r : α) : Collected α :=
+  { seeds := c.seeds ++ [s], runs := c.runs ++ [r] }
+
+/-- the result of task `i` arrives (an index outside the task list is no task) -/
+def arrive {α : Type} (traj : SeedSeq → α) (seeds : List SeedSeq) (c : Collected α) (i : Nat) : Collected α :=
+  match seeds[i]? with
+  | some s => c.add s (traj s)
+  | none => c
+
+/-- the results arrive in the order `order` (a list of task indices) -/
+def collect {α : Type} (traj : SeedSeq → α) (seeds : List SeedSeq) (order : List Nat) : Collected α :=
+  order.foldl (arrive traj seeds) {}
+
+/-- a variant that reports the seeds in submission order whatever the arrival order (what two of the
+seeded changes did): used only to show that the pairing theorem is not vacuous -/
+def collectSubmissionSeeds {α : Type} (traj : SeedSeq → α) (seeds : List SeedSeq) (order : List Nat) : Collected α :=
+  let c := collect traj seeds order
+  { c with seeds := seeds.take c.seeds.length }
+
 end Qv.C13
